@@ -14,7 +14,7 @@
 -/
 import Rtp.Proofs.ExtCodecs
 namespace Rtp.Props.C17
-open Rtp Rtp.Model.Ext Rtp.Pred.C17 Rtp.Spec.Ext Rtp.Proofs.Ext
+open Rtp Rtp.Model.ExtCodecs Rtp.Pred.C17 Rtp.Spec.ExtLayouts Rtp.Proofs.ExtCodecs
 
 /-! ### AudioLevel -/
 
